@@ -222,47 +222,7 @@ def run(ctx, rep):
     hfc = [c2 for c2 in f.calls('block_has_file')]
     rep.rule('R-C04-3d', 'scrub: a block with invalid parity marks the stripe unsynced even when it has no file (test precedes the skip)', 1)
     rep.check(bool(ipc) and bool(hfc) and any(f.dominates(a_, hfc[0]) for a_ in ipc), 'R-C04-3d', 'state_scrub_process: invalid-parity test before the no-file skip', hfc[0].loc() if hfc else f.file, '', function='state_scrub_process', construct='invalid parity before skip')
-    # marking
-    bad = [c2 for c2 in f.calls('info_set_bad')]
-    ref = [c2 for c2 in f.calls('info_make')]
-    direct = [b for b in bad if mark_justified_by_increment(L, f, b)]
-    bad = [b for b in bad if b not in direct]          # the mark(s) of the per-stripe decision
-    okb = bool(bad) and all(all(t['silent_error_on_this_block'] == 1 or t['io_error_on_this_block'] == 1 for t in fa.at(b)) for b in bad)
-    # completeness: at the decision point every tuple with silent or io goes to the bad mark: the refresh/"nothing" sites never see silent/io
-    okr = bool(ref) and all(all(t['silent_error_on_this_block'] == 0 and t['io_error_on_this_block'] == 0 and t['error_on_this_block'] == 0 for t in fa.at(r)) for r in ref)
-    # `state->need_write = 1` is after the decision: tuples there with silent/io must all have passed the bad mark: check by cut
-    nw = [i for i in f.all_insts() if i.op == 'store' and f.expr(i.ops[1]).endswith('->need_write') and i.block in L.body]
-    okc = True
-    for n_ in nw:
-        r = f.reach([L.block_first(L.header)], stop={b.id for b in bad} | {x.id for x in ref}, include_start=True)
-        # paths reaching need_write without bad mark nor refresh must have error_on_this_block only
-        for t in fa.at(n_):
-            pass
-    rep.check(okb, 'R-C04-4', 'scrub: bad mark only with silent or io error', bad[0].loc() if bad else f.file, 'tuples at the mark all have silent=1 or io=1', function='state_scrub_process', construct='bad mark')
-    rep.check(okr and [f.expr(o) for o in ref[0].ops[1:]] == ['0', '0', '0'], 'R-C04-4', 'scrub: refresh only with error=silent=io=0, clearing bad/rehash/justsynced', ref[0].loc() if ref else f.file, '', function='state_scrub_process', construct='refresh')
-    # the decision is exhaustive (E4): at the decision point D (nearest common dominator of the mark and the refresh) every tuple with
-    # silent or io error flows to the bad mark, and every all-clear tuple flows to the refresh
-    if bad and ref:
-        d = bad[0].block
-        while not f.bdominates(d, ref[0].block):
-            d = f.idom[d]
-        # the decision starts at the first test of one of the three flags: climb over dominating flag tests (an `if (error) ... else if
-        # (silent || io)` chain must be judged from its top, where every combination of the flags is still possible)
-        while f.idom[d] is not None and f.idom[d] != d and f.idom[d] in L.body:
-            tt = f.term(f.idom[d])
-            if tt.op == 'br' and len(tt.ops) == 3 and fa._tested_flag(tt.ops[0]) is not None:
-                d = f.idom[d]
-            else:
-                break
-        T = fa.at(f.blocks[d][-1])
-        key = lambda t: (t['error_on_this_block'], t['silent_error_on_this_block'], t['io_error_on_this_block'])
-        at_bad = {key(t) for t in fa.at(bad[0])}
-        at_ref = {key(t) for t in fa.at(ref[0])}
-        want_bad = {key(t) for t in T if t['silent_error_on_this_block'] == 1 or t['io_error_on_this_block'] == 1}
-        want_ref = {key(t) for t in T if key(t) == (0, 0, 0)}
-        rep.check(at_bad == want_bad and at_ref == want_ref and want_ref, 'R-C04-4', 'scrub: every stripe with a silent/io error is marked bad, every clean stripe is refreshed', f.blocks[d][-1].loc(),
-                  '%d tuples at the decision; to mark %s; to refresh %s' % (len(T), sorted(at_bad), sorted(at_ref)), function='state_scrub_process', construct='decision exhaustive')
-
+    scrub_marking_rule(P, rep, 'R-C04-4', L)
     # sync verifies the blocks it reads: a stripe in which it saw a silent or i/o error (even one it could correct in memory) is marked bad.
     # Completeness by flag tuples: every tuple with silent/io that reaches the scheduling of the parity write has passed the bad mark.
     rep.rule('R-C04-4s', 'sync: every stripe with a silent or i/o error is marked bad before its parity write is scheduled (all flag tuples)', 1)
@@ -702,3 +662,53 @@ def rehash_pairing_rule(P, rep, rid):
                       function=fn, construct='rehandle pairing')
     if n < 2:
         raise AnalysisBroken('rehash sites not recognised (%d)' % n)
+
+
+def scrub_marking_rule(P, rep, rid, L=None):
+    """scrub: a stripe is marked bad iff a silent or i/o error was seen in it, refreshed iff nothing at all was seen; decided on the
+    tuples of the three per-stripe flags at the top of the decision (shared by C04, C08 and C15)"""
+    if L is None:
+        L = StripeLoop(P, 'state_scrub_process')
+    f = L.f
+    fa = L.fa
+    # marking
+    bad = [c2 for c2 in f.calls('info_set_bad')]
+    ref = [c2 for c2 in f.calls('info_make')]
+    direct = [b for b in bad if mark_justified_by_increment(L, f, b)]
+    bad = [b for b in bad if b not in direct]          # the mark(s) of the per-stripe decision
+    okb = bool(bad) and all(all(t['silent_error_on_this_block'] == 1 or t['io_error_on_this_block'] == 1 for t in fa.at(b)) for b in bad)
+    # completeness: at the decision point every tuple with silent or io goes to the bad mark: the refresh/"nothing" sites never see silent/io
+    okr = bool(ref) and all(all(t['silent_error_on_this_block'] == 0 and t['io_error_on_this_block'] == 0 and t['error_on_this_block'] == 0 for t in fa.at(r)) for r in ref)
+    # `state->need_write = 1` is after the decision: tuples there with silent/io must all have passed the bad mark: check by cut
+    nw = [i for i in f.all_insts() if i.op == 'store' and f.expr(i.ops[1]).endswith('->need_write') and i.block in L.body]
+    okc = True
+    for n_ in nw:
+        r = f.reach([L.block_first(L.header)], stop={b.id for b in bad} | {x.id for x in ref}, include_start=True)
+        # paths reaching need_write without bad mark nor refresh must have error_on_this_block only
+        for t in fa.at(n_):
+            pass
+    rep.check(okb, rid, 'scrub: bad mark only with silent or io error', bad[0].loc() if bad else f.file, 'tuples at the mark all have silent=1 or io=1', function='state_scrub_process', construct='bad mark')
+    rep.check(okr and [f.expr(o) for o in ref[0].ops[1:]] == ['0', '0', '0'], rid, 'scrub: refresh only with error=silent=io=0, clearing bad/rehash/justsynced', ref[0].loc() if ref else f.file, '', function='state_scrub_process', construct='refresh')
+    # the decision is exhaustive (E4): at the decision point D (nearest common dominator of the mark and the refresh) every tuple with
+    # silent or io error flows to the bad mark, and every all-clear tuple flows to the refresh
+    if bad and ref:
+        d = bad[0].block
+        while not f.bdominates(d, ref[0].block):
+            d = f.idom[d]
+        # the decision starts at the first test of one of the three flags: climb over dominating flag tests (an `if (error) ... else if
+        # (silent || io)` chain must be judged from its top, where every combination of the flags is still possible)
+        while f.idom[d] is not None and f.idom[d] != d and f.idom[d] in L.body:
+            tt = f.term(f.idom[d])
+            if tt.op == 'br' and len(tt.ops) == 3 and fa._tested_flag(tt.ops[0]) is not None:
+                d = f.idom[d]
+            else:
+                break
+        T = fa.at(f.blocks[d][-1])
+        key = lambda t: (t['error_on_this_block'], t['silent_error_on_this_block'], t['io_error_on_this_block'])
+        at_bad = {key(t) for t in fa.at(bad[0])}
+        at_ref = {key(t) for t in fa.at(ref[0])}
+        want_bad = {key(t) for t in T if t['silent_error_on_this_block'] == 1 or t['io_error_on_this_block'] == 1}
+        want_ref = {key(t) for t in T if key(t) == (0, 0, 0)}
+        rep.check(at_bad == want_bad and at_ref == want_ref and want_ref, rid, 'scrub: every stripe with a silent/io error is marked bad, every clean stripe is refreshed', f.blocks[d][-1].loc(),
+                  '%d tuples at the decision; to mark %s; to refresh %s' % (len(T), sorted(at_bad), sorted(at_ref)), function='state_scrub_process', construct='decision exhaustive')
+
